@@ -10,7 +10,7 @@ text = the label callback applied to exactly those names (in context order).
 import re
 
 from . import common
-from .common import Oracle, fail
+from .common import fail
 from .c11 import canonical_lattice
 
 RULE = ('cases = boolean tables (K scopes of DESIGN 3.4; they contain one-concept and two-concept lattices and concepts '
